@@ -247,7 +247,7 @@ func c19Extra(tier string, _ int64) *runner.ExtraResult {
 	// ---- involved-object filter
 	var evObjs []metav1.Object
 	for _, own := range []string{"a", "b"} {
-		for _, k := range []string{"Pod", "Service", "Node", ""} { // "": an involved object without TypeMeta
+		for _, k := range []string{"Pod", "Service", "Node", "pod", ""} { // "": an involved object without TypeMeta
 			for _, ns := range []string{"a", "b", ""} {
 				for _, nm := range []string{"x", "y", "z"} {
 					evObjs = append(evObjs, mkEvent(own, "e", nil, k, ns, nm))
